@@ -1036,6 +1036,19 @@ func (e *Engine) evalCall(y *ECall, env *evalEnv) Val {
 			v, _ := e.specConst("called_"+mangle(id.Name), env)
 			return v
 		}
+	case "ret":
+		// ret(F, i): the i-th result of the last call of layer function F
+		if len(y.Args) == 2 {
+			f, ok1 := y.Args[0].(*EIdent)
+			n, ok2 := y.Args[1].(*ELit)
+			if ok1 && ok2 {
+				hn := "callret_" + mangle(f.Name) + "_" + n.Val
+				if t, ok := e.callArgTypes[hn]; ok {
+					return Val{S: e.heap(env.st, hn, e.heapSorts[hn]), T: t}
+				}
+				return e.evalErr("contract-stale: no call of " + f.Name + " on any path")
+			}
+		}
 	case "arg":
 		// arg(F, p): the value passed for parameter p in the last call of layer function F
 		if len(y.Args) == 2 {
